@@ -759,8 +759,75 @@ func cmdC16(args []string) error {
 			results = append(results, r)
 		}
 	}
+	// ---- a history of many open calls on one connection: 120 idle StreamingPull streams (a client
+	// with many subscribers) stay open while ordinary requests on the same connection are answered
+	{
+		var cancels []context.CancelFunc
+		opened := 0
+		for i := 0; i < 120; i++ {
+			sctx, cancel := context.WithCancel(ctx)
+			cancels = append(cancels, cancel)
+			// (opening blocks on the client side when the server limits the streams per connection)
+			okc := make(chan bool, 1)
+			go func() {
+				st, err := pubsubpb.NewSubscriberClient(ch.conn).StreamingPull(sctx)
+				if err != nil {
+					okc <- false
+					return
+				}
+				okc <- st.Send(&pubsubpb.StreamingPullRequest{Subscription: "projects/p/subscriptions/s1", StreamAckDeadlineSeconds: 10, MaxOutstandingMessages: 1}) == nil
+			}()
+			good := false
+			select {
+			case good = <-okc:
+			case <-time.After(2 * time.Second):
+			}
+			if !good {
+				r := c16result{RPC: "StreamingPull", Desc: fmt.Sprintf("opening stream %d on a connection with %d idle streams", i+1, opened), Outcome: "HANG"}
+				outcomes[r.Outcome]++
+				perRPC[r.RPC]++
+				results = append(results, r)
+				break
+			}
+			opened++
+		}
+		time.Sleep(300 * time.Millisecond)
+		for _, rq := range []struct {
+			rpc  string
+			call func(context.Context) error
+		}{
+			{"GetTopic", func(c context.Context) error {
+				_, err := pubsubpb.NewPublisherClient(ch.conn).GetTopic(c, &pubsubpb.GetTopicRequest{Topic: "projects/p/topics/t0"})
+				return err
+			}},
+			{"GetSubscription", func(c context.Context) error {
+				_, err := pubsubpb.NewSubscriberClient(ch.conn).GetSubscription(c, &pubsubpb.GetSubscriptionRequest{Subscription: "projects/p/subscriptions/unknown"})
+				return err
+			}},
+		} {
+			cctx, cancel := context.WithTimeout(ctx, 5*time.Second)
+			err := rq.call(cctx)
+			cancel()
+			r := c16result{RPC: rq.rpc, Desc: fmt.Sprintf("with %d idle StreamingPull streams open on the same connection", opened), Outcome: "OK"}
+			if err != nil {
+				r.Outcome = status.Code(err).String()
+			}
+			if !ch.alive() {
+				r.Outcome = "PANIC"
+			} else if r.Outcome == "DeadlineExceeded" {
+				r.Outcome = "HANG"
+			}
+			outcomes[r.Outcome]++
+			perRPC[r.RPC]++
+			results = append(results, r)
+		}
+		for _, c := range cancels {
+			c()
+		}
+		time.Sleep(100 * time.Millisecond)
+	}
 	ch.stop()
-	return writeJSON(filepath.Join(*out, "c16.json"), map[string]interface{}{"requests": len(results), "total_domain": len(reqs) + 3*len(endpoints), "outcomes": outcomes,
+	return writeJSON(filepath.Join(*out, "c16.json"), map[string]interface{}{"requests": len(results), "total_domain": len(reqs) + 3*len(endpoints) + 2, "outcomes": outcomes,
 		"per_rpc": perRPC, "results": results, "exhaustive": *sample <= 1})
 }
 
